@@ -1,6 +1,7 @@
 ----------------------------- MODULE MC_PongoLoader -----------------------------
 EXTENDS PongoLoader, Json
-CONSTANTS Layouts      \* bitmasks 0..15 used for each loader's file set
+CONSTANTS Layouts,     \* bitmasks 0..15 used for each loader's file set
+          NestedKind   \* how a-files include "c": "include_if" or "include" (then a missing c is an error of its own)
 
 A == <<"a">>  DA == <<"d", "a">>  C == <<"c">>  DC == <<"d", "c">>
 Paths == <<A, DA, C, DC>>
@@ -8,7 +9,7 @@ Bit(m, i) == (m \div (2 ^ (i - 1))) % 2 = 1
 Tag(l, p) == IF l = 1 THEN "one:" ELSE "two:"
 PName(p) == CASE p = A -> "a" [] p = DA -> "d/a" [] p = C -> "c" [] p = DC -> "d/c" [] OTHER -> "r"
 \* a-files include "c" by a relative name: resolved in their own directory
-Content(l, p) == IF p \in {A, DA} THEN <<Text(Tag(l, p) \o PName(p) \o "("), Ref("include_if", Name(FALSE, <<"c">>)), Text(")")>>
+Content(l, p) == IF p \in {A, DA} THEN <<Text(Tag(l, p) \o PName(p) \o "("), Ref(NestedKind, Name(FALSE, <<"c">>)), Text(")")>>
                  ELSE <<Text(Tag(l, p) \o PName(p))>>
 Loader(l, mask, extra) ==
   LET ps == {Paths[i] : i \in {j \in 1..4 : Bit(mask, j)}} IN
